@@ -38,6 +38,14 @@ J08(r, modified, devs) ==
      ELSE IF ~r.has_trailer THEN Verdict(r.rid, "C08", "reject", "no source-map trailer")
      ELSE Verdict(r.rid, "C08", IF r.v8_out = "ok" THEN "ok" ELSE "ok0", r.kind_out)
 
+(* names the file prologue defines pass-throughs for:  { <name>: noop, ... }  inside the prologue statement *)
+RECURSIVE NoopKeys(_)
+NoopKeys(n) ==
+  (IF n.t = "KeyValueProperty" /\ n.c[1].t = "Identifier" /\ IsIdentNamed(n.c[2], "noop") THEN {n.c[1].v} ELSE {})
+  \cup UNION {NoopKeys(n.c[k]) : k \in 1..Len(n.c)}
+PrologueKeysOf(out) ==
+  UNION {NoopKeys(out.c[1].c[k]) : k \in {j \in 1..Len(out.c[1].c) : IsPrologueIf(out.c[1].c[j])}}
+
 JudgeOk(r) ==
   \E modified \in {r.status = "modified"} :
   \E rin \in {TreeOf(r.in)} :
@@ -121,6 +129,8 @@ JudgeOk(r) ==
   /\ IF ~m.ok THEN Verdict(r.rid, "C05", "na", "C02 failed")
      ELSE IF strayPairs # {} THEN Verdict(r.rid, "C05", "reject", <<"hook on an operation the configuration does not enable, or wrong hook name", strayPairs>>)
      ELSE IF strayNames # {} THEN Verdict(r.rid, "C05", "reject", <<"hook namespace dereferenced with unconfigured names", strayNames>>)
+     ELSE IF modified /\ r.has_prologue /\ PrologueKeysOf(rout) # alld
+          THEN Verdict(r.rid, "C05", "reject", <<"the prologue defines pass-throughs for", PrologueKeysOf(rout), "configured names", alld>>)
      ELSE IF dcfg.alldsts = <<>> /\ modified THEN Verdict(r.rid, "C05", "reject", "modified with an empty method list")
      ELSE Verdict(r.rid, "C05", "ok", Cardinality({i \in siteIdx : ~sites[i].en}))
   \* ---- C06 (static half) : hygiene of injected temporaries in the real output
